@@ -19,6 +19,8 @@ pub fn run(ctx: &Ctx, st: &mut Local) {
             crate::props_file::run_c12_hist(ctx, st);
             crate::props_file::run_c12_buf(ctx, st);
             crate::props_file::run_c12_damaged(ctx, st);
+            crate::props_file::run_c12_adjacent(ctx, st);
+            crate::props_file::run_c12_env(ctx, st);
             crate::props_file::run_c12_big(ctx, st);
         }
         "C13" => crate::props_file::run_c13(ctx, st),
